@@ -72,7 +72,8 @@ def make_comp(case, spy=None):
         def setup(self):
             for i, v in enumerate(case['x']):
                 self.add_input(f"x{i}", val=np.array(v, dtype=float))
-            self.add_output('y', val=np.zeros(m))
+            # optional solver scaling of the output: approximations run in physical units, whatever the scaling
+            self.add_output('y', val=np.zeros(m), **{k: v for k, v in (case.get('yscale') or {}).items()})
             self.declare_partials('y', '*', method=case['method'], **case['opts'])
             if case.get('colored'):
                 self.declare_coloring(wrt='*', method=case['method'], num_full_jacs=2, min_improve_pct=0.0, show_summary=False)
@@ -139,7 +140,7 @@ def check(case):
     if known_f20(case):
         pre = 'F20|'
     cls = [case['method'], 'form_' + form, 'sc_' + case['opts'].get('step_calc', 'abs'), 'colored' if case.get('colored') else 'uncolored',
-           case['config']]
+           case['config']] + (['output_scaling'] if case.get('yscale') else [])
     np.random.seed(case.get('npseed', 0))
     p = om.Problem(reports=False)
     if case['config'] == 'component':
@@ -246,14 +247,23 @@ def strategy(tier):
             if colored and method == 'fd':
                 # declare_coloring has no step_calc argument: a colored model-level approximation is only specified for 'abs'
                 opts['step_calc'] = 'abs'
-        return {'x': xs, 'nout': m, 'g': g, 'c': cc, 'H': Hs, 'method': method, 'opts': opts, 'colored': colored,
-                'config': config, 'npseed': draw(st.integers(0, 1000))}
+        out = {'x': xs, 'nout': m, 'g': g, 'c': cc, 'H': Hs, 'method': method, 'opts': opts, 'colored': colored,
+               'config': config, 'npseed': draw(st.integers(0, 1000))}
+        if draw(st.sampled_from([False, False, True])):
+            ys = {}
+            if draw(st.booleans()):
+                ys['ref'] = draw(st.sampled_from([0.125, 8.0, -4.0, 64.0]))
+            if draw(st.booleans()) or not ys:
+                ys['ref0'] = draw(st.sampled_from([0.5, -2.0, 16.0]))
+            if ys.get('ref') != ys.get('ref0'):
+                out['yscale'] = ys
+        return out
     return case()
 
 
 def units(tier, seed):
     n = 16 if tier == 'quick' else 32
-    per = 100 if tier == 'quick' else 4000
+    per = 100 if tier == 'quick' else 1400
     return [{'kind': 'random', 'n': per, 'seed': core.shard_seed(seed, ID, i)} for i in range(n)]
 
 
